@@ -26,8 +26,8 @@ from ..render import TRAITS, applicable, render
 from ..tlaval import dump_chunks, parse, parse_state, read_dump
 
 BOUNDS = {
-    "quick": dict(bases=5, maxpos=40, soup=3, chains=False, nest="{40, 150}", tables_every=3),
-    "thorough": dict(bases=12, maxpos=160, soup=4, chains=True, nest="{40, 150, 400}", tables_every=1),
+    "quick": dict(bases=5, maxpos=40, soup=3, chains=False, nest="{40, 150, 1200}", tables_every=3),
+    "thorough": dict(bases=12, maxpos=160, soup=4, chains=True, nest="{40, 150, 400, 1200, 3000}", tables_every=1),
 }
 POSOPS = '{"Prefix", "Suffix", "CutChars", "DelLine", "DupLine", "SwapLines", "DelToken", "DupToken", "SwapTokens", "BreakLine", "JoinLines", "OddSpace", "Flatten"}'
 
